@@ -15,26 +15,26 @@ var be = binary.BigEndian
 // Reply describes one packet the simulated network sends in answer to a probe (or injects as noise),
 // relative to the probe's actual bytes.
 type Reply struct {
-	Form    string            `json:"form"`     // te du_port du_host du_admin echo synack rst rstack sack ack_nosack icmp_other raw
-	From    string            `json:"from"`     // responder address (literal, or symbolic: TARGET, LOCAL)
-	DelayUs int64             `json:"delay_us"` // after the probe was written
-	Quote   string            `json:"quote"`    // "" / "28": header + 8 bytes; "full"; "ext": RFC 4884 padded quote + extension
-	IPOpt   int               `json:"ipopt"`    // outer IPv4 option bytes (NOPs), 0/4/40
-	QTTL    int               `json:"qttl"`     // 0: rewrite quoted TTL to 1 (what routers see); n>0: that value; -1: keep
-	QCsum   string            `json:"qcsum"`    // "" fix | "zero" | "keep"
-	QTOS    int               `json:"qtos"`     // 0 keep, else rewritten
-	Mods    NumMap            `json:"mods"`     // numeric perturbations (set value)
-	ModsD   NumMap            `json:"mods_d"`   // numeric perturbations (delta on the genuine value)
-	ModsS   StrMap            `json:"mods_s"`   // address perturbations
-	Extra   []int             `json:"extra"`    // sack: further TTLs whose blocks are also reported
-	Desc    bool              `json:"desc"`     // sack: list blocks in descending order
-	Raw     string            `json:"raw"`      // form raw: hex bytes
-	Dup     int               `json:"dup"`      // extra copies
-	DupUs   int64             `json:"dup_us"`   // spacing of the copies
-	Tag     string            `json:"tag"`      // free label copied to the trace
-	Patch   [][2]int          `json:"patch"`    // junk: byte patches (offset from the IP header, value) applied after encoding
-	Trunc   int               `json:"trunc"`    // junk: keep only the first n bytes (0 = keep all; n is clamped to len-1)
-	Append  int               `json:"append"`   // junk: append n garbage bytes
+	Form    string   `json:"form"`     // te du_port du_host du_admin echo synack rst rstack sack ack_nosack icmp_other raw
+	From    string   `json:"from"`     // responder address (literal, or symbolic: TARGET, LOCAL)
+	DelayUs int64    `json:"delay_us"` // after the probe was written
+	Quote   string   `json:"quote"`    // "" / "28": header + 8 bytes; "full"; "ext": RFC 4884 padded quote + extension
+	IPOpt   int      `json:"ipopt"`    // outer IPv4 option bytes (NOPs), 0/4/40
+	QTTL    int      `json:"qttl"`     // 0: rewrite quoted TTL to 1 (what routers see); n>0: that value; -1: keep
+	QCsum   string   `json:"qcsum"`    // "" fix | "zero" | "keep"
+	QTOS    int      `json:"qtos"`     // 0 keep, else rewritten
+	Mods    NumMap   `json:"mods"`     // numeric perturbations (set value)
+	ModsD   NumMap   `json:"mods_d"`   // numeric perturbations (delta on the genuine value)
+	ModsS   StrMap   `json:"mods_s"`   // address perturbations
+	Extra   []int    `json:"extra"`    // sack: further TTLs whose blocks are also reported
+	Desc    bool     `json:"desc"`     // sack: list blocks in descending order
+	Raw     string   `json:"raw"`      // form raw: hex bytes
+	Dup     int      `json:"dup"`      // extra copies
+	DupUs   int64    `json:"dup_us"`   // spacing of the copies
+	Tag     string   `json:"tag"`      // free label copied to the trace
+	Patch   [][2]int `json:"patch"`    // junk: byte patches (offset from the IP header, value) applied after encoding
+	Trunc   int      `json:"trunc"`    // junk: keep only the first n bytes (0 = keep all; n is clamped to len-1)
+	Append  int      `json:"append"`   // junk: append n garbage bytes
 }
 
 // NumMap / StrMap accept the "[]" that TLC's Json module emits for an empty function.
